@@ -516,13 +516,10 @@ func (c *ConcCtx) ctxErr(e *Exec, st *State, ctx Value, site string) []Outcome {
 	}
 	ev := c.emit(st, "ctxerr", "ctxs:"+joinInts(chain), site)
 	ev.Read = e.fresh("cancelled", BoolSort)
-	// fork on the symbolic answer (interface values of different dynamic types cannot be merged)
-	s2 := st.Clone()
-	st.Assume(ev.Read)
-	s2.Assume(Not(ev.Read))
 	cp := e.prog.ImportedPackage("context")
-	canc := e.load(st, Ptr{Obj: e.globalObj(cp.Var("Canceled"))})
-	return []Outcome{{st: st, kind: oReturn, vals: []Value{canc}}, {st: s2, kind: oReturn, vals: []Value{Iface{}}}}
+	canc := e.load(st, Ptr{Obj: e.globalObj(cp.Var("Canceled"))}).(Iface)
+	// nil unless cancelled (the distinction Canceled / DeadlineExceeded is not tracked in concurrent mode)
+	return ret(st, Iface{T: canc.T, V: canc.V, NilIf: Not(ev.Read)})
 }
 
 func joinInts(xs []int) string {
@@ -655,6 +652,24 @@ func (c *ConcCtx) build(e *Exec) {
 	}
 	c.phi = phi
 	c.built = true
+	if os.Getenv("VERIF_CONCDEBUG") != "" {
+		// find the first conjunct prefix that is unsatisfiable (debug aid)
+		lo, hi := 0, len(phi)
+		r, _ := e.solver.Check(phi, 60000, false)
+		fmt.Fprintf(os.Stderr, "conc debug: %d constraints, all together: %s\n", len(phi), r)
+		if r == "unsat" {
+			for lo < hi {
+				mid := (lo + hi) / 2
+				r, _ := e.solver.Check(phi[:mid+1], 60000, false)
+				if r == "unsat" {
+					hi = mid
+				} else {
+					lo = mid + 1
+				}
+			}
+			fmt.Fprintf(os.Stderr, "conc debug: first unsat prefix ends at constraint %d: %s\n", lo, phi[lo].str(8))
+		}
+	}
 }
 
 func (c *ConcCtx) encodeAtomic(loc string, evs []*Event, add func(*Term)) {
